@@ -35,7 +35,7 @@ def run_case(case):
     nx, ny = St["nx"], St["ny"]
     nz = len(St["z"])
     prec = "double" if rng.random() < 0.7 else "single"
-    tol = solve.tol(prec, St["G"])
+    tol = solve.tol(prec, St["G"], cr=St["cr"])
     levels, lkind = solve.pick_levels(rng, nz)
     nl = solve.nlev(levels)
     analytic = St["pdesc"]["kind"] == "constant" and rng.random() < 0.4
